@@ -1,7 +1,7 @@
 """API-level checks (C06 C07 C08 C12 C13 C14 C15): TLC model checking of spec/AsmApi.tla, replay of every printed
 transition on the real library (harness/apirun.c), seeded random histories, and validation of every recorded
 execution by TLC (spec/ApiTrace.tla)."""
-import json, os, re, random, subprocess, time, collections, shutil
+import zlib, json, os, re, random, subprocess, time, collections, shutil
 import alverif as A
 
 LEVEL = "model_checking"
@@ -56,7 +56,7 @@ def model_check(name, tier):
         for p in ALLPROPS:
             f.write("PROPERTY %s\n" % p)
     try:
-        rc, out = A.tlc("AsmApi", cfg=cfgname, workers=8, timeout=3000, xmx="8g", tag=cfgname)
+        rc, out = A.tlc("AsmApi", cfg=cfgname, workers=16, timeout=3000, xmx="8g", tag=cfgname)
     finally:
         os.unlink(os.path.join(A.SPEC, cfgname + ".cfg"))
     m = re.search(r"(\d+) states generated, (\d+) distinct states found", out)
@@ -130,6 +130,9 @@ def hx(text):
     return text.encode("latin-1").hex() or "-"
 
 
+SEPS = ["\n", "\r\n", "\r", "\n\n", "\n \t\n", " ; note\n", "\n; note\n", "\r\r", "\n\r"]
+
+
 class Script:
     """one history: text for apirun + per-op metadata that is merged back into the events"""
 
@@ -183,8 +186,14 @@ class Script:
         self.lines.append("X %d" % i)
         self.meta.append({"expect": list(expect)})
 
-    def asm(self, i, keys, texts, count=None, twin=False, eol="\n"):
+    def asm(self, i, keys, texts, count=None, twin=False, eol=None):
         st = self._st(i)
+        if eol is None:
+            # line terminators the library recognises (LF, CRLF, lone CR), blank lines and trailing comments: half of the calls use plain LF
+            h = zlib.crc32(("%s:%d" % (self.sid, len(self.lines))).encode())
+            eol = SEPS[(h >> 4) % len(SEPS)] if h % 2 else "\n"
+            if texts and (h >> 12) % 3 == 0:
+                texts = list(texts[:-1]) + [texts[-1] + ["\n", "\r\n", "\r", "\n\n"][(h >> 16) % 4]]
         meta = {"prog": list(keys)}
         if twin and st["ext"]:
             self.lines.append("W %d %d %d %d %d" % (OPTV[st["opt"][0]], OPTV[st["opt"][1]], OPTV[st["opt"][2]], st["fit"], st["off"]))
@@ -588,35 +597,32 @@ def finish(prop, tier, t0, results, L, stats_all, viol_model, replay, extra_cov=
         p, r = reason.split(":", 1)
         if p == "C09" and r == "fault":
             p = prop
-        if p == prop:
-            mine.append((sid, r, evname))
-        else:
+        if p != prop:
+            # a violation of another listed property seen by this check's executions: reported as such, never swallowed
             others[reason] += 1
-            if others[reason] <= 2:
-                sc0, evs0 = bysid[sid]
-                A.write_replay(prop, "other-%s-%s" % (sid, reason), {"property": prop, "reason": reason, "sid": sid, "script": sc0.lines, "meta": sc0.meta, "events": evs0})
-    known = [e for e in A.load_known() if e["property"] == prop and e.get("status") == "open"]
+        mine.append((sid, r, evname, p))
+    known = [e for e in A.load_known() if e.get("status") == "open"]
     kf, viol = collections.OrderedDict(), []
-    for sid, r, evname in mine:
-        hit = next((e for e in known if r in e["reason"] and re.search(e.get("match", {}).get("script", ".*"), "\n".join(bysid[sid][0].lines))), None)
+    for sid, r, evname, p in mine:
+        hit = next((e for e in known if e["property"] == p and r in e["reason"] and re.search(e.get("match", {}).get("script", ".*"), "\n".join(bysid[sid][0].lines))), None)
         if hit:
             kf.setdefault(hit["id"], [hit, 0, sid])
             kf[hit["id"]][1] += 1
         else:
-            viol.append((sid, r, evname))
+            viol.append((sid, r, evname, p))
     for kid, (entry, n, sid) in kf.items():
-        print("KNOWN-FINDING: property=%s %s %s (%d executions, e.g. %s)" % (prop, kid, entry["what"], n, sid))
+        print("KNOWN-FINDING: property=%s %s %s (%d executions, e.g. %s)" % (entry["property"], kid, entry["what"], n, sid))
     for mname, what, cex in viol_model:
         path = A.write_replay(prop, "model-%s" % mname, {"property": prop, "model": mname, "violated": what, "counterexample": cex})
         print("VIOLATION property=%s replay=%s  (TLC: %s violated in %s)" % (prop, path, what, mname))
     seen = collections.Counter()
-    for sid, r, evname in viol:
+    for sid, r, evname, p in viol:
         seen[r] += 1
         if seen[r] > 3:
             continue
         sc, evs = bysid[sid]
-        path = A.write_replay(prop, "%s-%s" % (sid, r), {"property": prop, "reason": r, "sid": sid, "script": sc.lines, "meta": sc.meta, "events": evs})
-        print("VIOLATION property=%s replay=%s  (%s at %s in %s)" % (prop, path, r, evname, sid))
+        path = A.write_replay(prop, "%s-%s" % (sid, r), {"property": p, "reason": r, "sid": sid, "script": sc.lines, "meta": sc.meta, "events": evs})
+        print("VIOLATION property=%s replay=%s  (%s at %s in %s)" % (p, path, r, evname, sid))
     for r, n in seen.items():
         if n > 3:
             print("  (+%d more executions with %s)" % (n - 3, r))
@@ -795,7 +801,7 @@ def c19_scripts(L, rnd, tier):
     out, n = [], 0
     for size in sorted(sizes):
         for (eol, fin) in (("\n", True), ("\n", False), ("\r\n", True)):
-            for cnt in (None, 16):
+            for cnt in (None, 16, rnd.choice([0, 1, 5])):
                 data, keys = file_content(L, rnd, size, eol, fin)
                 path = os.path.join(d, "f%d.asm" % n)
                 open(path, "wb").write(data)
@@ -803,8 +809,8 @@ def c19_scripts(L, rnd, tier):
                 sc.create(1, "ext", 700)
                 if rnd.random() < 0.3:
                     sc.opt(1, "all", rnd.choice(["STRICT", "NASM"]))
-                if cnt is None and rnd.random() < 0.3:
-                    sc.chunk(1, 16)
+                if rnd.random() < (0.3 if cnt in (None, 16) else 0.7):
+                    sc.chunk(1, rnd.choice([16, 16, 8, 5]))   # the instance's own mode, whatever the entry point
                 sc.offset(1, rnd.choice([0, 0, 7, 33]))
                 sc.asm_file(1, keys, path, count=cnt)
                 sc.binfile(1, path + ".bin")
